@@ -201,6 +201,10 @@ def build(case):
             h.add_edge(nodes)
         else:
             h.add_edge(nodes, weight=case["weights"][j])
+    if case["weights"] is not None and len(case["edges"]) % 2:
+        # the hypergraph metadata replaced wholesale by the user's own fields: the object is
+        # still weighted (is_weighted()), only the implementation's 'weighted' entry is gone
+        h.set_hypergraph_metadata({"name": "toy"})
     return h
 
 
@@ -776,6 +780,16 @@ def check_determinism(case, ctx):
             lambda: "the same HypergraphMT object fitted twice with seed %d returns different "
             "results (log-likelihoods %r and %r)" % (case["seed"], out[1][2], float(l3)),
             key="refit-differs")
+    # ... and once more with ANOTHER seed: what the earlier call handed out stays what it was
+    kept_u, kept_w = u3, w3
+    copy_u, copy_w = np.array(u3, copy=True), np.array(w3, copy=True)
+    with threadpoolctl.threadpool_limits(limits=1):
+        model.fit(h, K=case["K"], seed=case["seed"] + 1, normalizeU=case["normalizeU"],
+                  baseline_r0=case["baseline_r0"])
+    require(np.array_equal(np.asarray(kept_u), copy_u) and np.array_equal(np.asarray(kept_w), copy_w),
+            lambda: "the arrays returned by HypergraphMT.fit(seed=%d) changed when the same model "
+            "was fitted again with seed %d" % (case["seed"], case["seed"] + 1),
+            key="earlier-result-overwritten")
     (u1, w1, l1, t1), (u2, w2, l2, t2) = out
     require(u1.shape == u2.shape and np.array_equal(u1, u2),
             lambda: "two fits with seed %d on fresh objects (global RNG states differ) return different u:\n%r\n%r"
